@@ -143,3 +143,36 @@ fn braidk_result_reverse_order() {
         n += 1;
     }
 }
+
+/// C05: the finalize flag means "a finalize strand IS IN the heap", not "the last pushed strand
+/// was a finalize": three pushes with arbitrary priorities — push i is refused with
+/// ParallelFinalize exactly when strand i is a finalize and an earlier accepted strand is one
+/// (added after a seeded change `has_finalize = is_finalize` went undetected by the 2-strand kernel).
+#[kani::proof]
+#[kani::unwind(6)]
+fn braidk_strand_heap3_finalize_flag() {
+    let (mut st, _ids, prios) = store_with(3);
+    let mut heap: StrandHeap<VSeg> = StrandHeap::new();
+    let mut fin_in_heap = false;
+    let mut i = 0;
+    while i < 3 {
+        let s = match Strand::new(&mut st, loc(i as u64, i as u64), None) { Ok(s) => s, Err(_) => panic!("strand") };
+        let is_fin = prios[i].kind == 2;
+        match heap.push(s) {
+            Ok(()) => {
+                assert!(!(is_fin & fin_in_heap), "C05: a second concurrent finalize strand was accepted");
+                if is_fin {
+                    fin_in_heap = true;
+                }
+            }
+            Err(ClientError::ParallelFinalize) => {
+                assert!(is_fin & fin_in_heap, "C05: spurious ParallelFinalize");
+            }
+            Err(_) => panic!("unexpected error"),
+        }
+        i += 1;
+    }
+    kani::cover!((prios[0].kind == 2) & (prios[1].kind != 2) & (prios[2].kind == 2), "finalize, other, finalize");
+    kani::cover!((prios[0].kind != 2) & (prios[1].kind == 2) & (prios[2].kind == 2), "other, finalize, finalize");
+    core::mem::forget(heap);
+}
